@@ -213,6 +213,12 @@ def run_property(prop: str, tier: str, seed: int, replay_path: str | None = None
         print(f"replay: property={prop} holds on {replay_path}")
         return 0
 
+    # replays/ only ever holds the violations of the latest run of this property
+    rdir = os.path.join(ROOT, "replays", prop)
+    if os.path.isdir(rdir):
+        for fn in os.listdir(rdir):
+            if fn.endswith(".json"):
+                os.unlink(os.path.join(rdir, fn))
     findings = load_findings(prop)
     open_findings = [f for f in findings if f.get("status") == "open"]
 
@@ -236,6 +242,26 @@ def run_property(prop: str, tier: str, seed: int, replay_path: str | None = None
                 f["_seen"] = True
             else:
                 stale.append(f["id"])
+
+    # 1b. committed regression corpus (shrunk former failures): replayed before the search
+    corpus_violations = []
+    cdir = os.path.join(ROOT, "corpus", prop)
+    corpus_cases = []
+    if os.path.isdir(cdir):
+        for fn in sorted(os.listdir(cdir)):
+            if fn.endswith(".json"):
+                with open(os.path.join(cdir, fn)) as fh:
+                    rec = json.load(fh)
+                corpus_cases.append({"__i": len(corpus_cases), "case": rec["case"] if "case" in rec else rec, "file": fn})
+    if corpus_cases:
+        for out in run_pool(modname, "replay_tagged", corpus_cases):
+            if not out["ok"]:
+                sys.stderr.write(out["tb"])
+                return 2
+            for v in out["res"]["violations"]:
+                v = dict(v)
+                v["detail"] = f"[corpus {corpus_cases[out['res']['__i']]['file']}] " + v.get("detail", "")
+                corpus_violations.append(v)
 
     # 2. the search
     shards = mod.plan(tier, seed)
@@ -264,6 +290,8 @@ def run_property(prop: str, tier: str, seed: int, replay_path: str | None = None
         merged["notes"].extend(r["notes"][:10])
         merged["inconclusive"] += r.get("inconclusive", 0)
 
+    merged["violations"].extend(corpus_violations)
+    merged["stats"]["corpus_cases_replayed"] = len(corpus_cases)
     if hasattr(mod, "finalize"):
         mod.finalize(merged, tier, seed)
 
